@@ -13,6 +13,9 @@ REDACT_QUERIES = ['redact("a")', 'a == 1 and redact("b", "c.k")', 'redact("a.jso
 EXTRA_QUERIES = ['a.undefinedHelper(1) or true', 'limit(10) and a', 'now() > a', 'a <= seconds(5)', 'a.b.startsWith("x")', 'a == r"^x"',
                  'a.* == 1', 'a[*].k == 1', 'a..k == 1', 'a[0] == 1', 'a["k"] == 1', 'a.json().b == 1', 'a.xml().r.b == "1"',
                  'b.json()..c > 0', 'datetime("10/19/2021, 6:29:02.000 PM") > a', '!(a) and -b < 0', 'a == nil', '', 'true',
+                 # helper names in another case (undefined helpers as the language stands)
+                 'a.startswith("x")', 'a.STARTSWITH("x") or true', 'a.Contains("x") or b', 'b.JSON().c == 1', 'Limit(3) and a', 'NOW() > a',
+                 'a.b.EndsWith("y") and a', 'a.Xml().r.b == "1"', 'Redact("a") and a', 'a <= Seconds(5)',
                  'a.* == a[*]']          # witness of the recorded finding map-order (on the record whose a is an object)
 
 
